@@ -21,4 +21,4 @@ CONSTANTS
 INIT Init
 NEXT Next
 CHECK_DEADLOCK FALSE
-INVARIANTS InvRefuse InvNoForgery InvNoThresholdlessRepair Emit
+INVARIANTS InvRefuse InvNoForgery InvNoThresholdlessRepair InvNoThresholdLoweringRefresh Emit
